@@ -243,6 +243,39 @@ def run(ctx):
             reqs.append({"op": "bool_pack", "v": b})
     for content in (b"", b"\x00", b"\x01", b"\xff", b"\x00\x00", b"\x80"):
         reqs.append({"op": "bool_read", "hex": (bytes([1, len(content)]) + content).hex()})
+    # the value handed to the writer is the caller's: bytes, bytearray or memoryview, written once, twice or three times (also under a tag and
+    # inside a sequence) — every copy read back equals the content, and the caller's object is unchanged afterwards
+    for _ in range(ctx.scale(400, 6000)):
+        evaluations += 1
+        c = gen.g_bytes(rng) if rng.random() < 0.8 else bytes(rng.randrange(256) for _ in range(rng.choice([127, 128, 300])))
+        kind = rng.choice(["bytes", "bytearray", "memoryview", "memoryview-of-bytearray"])
+        obj = c if kind == "bytes" else bytearray(c) if kind == "bytearray" else memoryview(c) if kind == "memoryview" else memoryview(bytearray(c))
+        times = rng.choice([1, 2, 2, 3])
+        tag = ASN1Tag(TagClass.CONTEXT_SPECIFIC, rng.choice([0, 3, 31]), False) if rng.random() < 0.4 else None
+        nested = rng.random() < 0.4
+        hist["octets-arg:" + kind] += 1
+        try:
+            w = ASN1Writer()
+            if nested:
+                with w.push_sequence() as sq:
+                    for _i in range(times):
+                        sq.write_octet_string(obj, tag=tag)
+            else:
+                for _i in range(times):
+                    w.write_octet_string(obj, tag=tag)
+            data = bytes(w.get_data())
+            r = ASN1Reader(data)
+            if nested:
+                r = r.read_sequence()
+            back = [r.read_octet_string(tag=tag) for _i in range(times)]
+            after = bytes(obj)
+        except BaseException as e:  # noqa: BLE001
+            violations.append({"key": None, "what": f"writing / reading an octet string given as {kind} raised {type(e).__name__}", "content": c[:40].hex(), "times": times})
+            continue
+        if back != [c] * times or after != c:
+            violations.append({"key": None, "what": f"an octet string given as {kind} and written {times} time(s) is read back differently, or the caller's "
+                               "object was changed by the write", "content": c[:40].hex(), "read_back": [b[:40].hex() for b in back], "object_after": after[:40].hex(),
+                               "nested": nested})
 
     # ---- nested sequences / sets written through the writer API and read back through sub-readers
     def build(w, depth):
